@@ -22,7 +22,7 @@ from vlib import corpus, pool
 from vlib.gen import isolation_docs as iso
 
 LEVEL = "exploration"
-OBSERVERS = ["full_text", "units", "unit_text", "unit_images", "unit_tables", "unit_meta", "images", "image_bytes", "image_meta", "tables", "metadata", "to_json", "unit_to_json",
+OBSERVERS = ["partial_iterations", "full_text", "units", "unit_text", "unit_images", "unit_tables", "unit_meta", "images", "image_bytes", "image_meta", "tables", "metadata", "to_json", "unit_to_json",
              "other_accessors", "other_accessors"]
 _COVERED = {"get_full_text", "iterate_units", "iterate_images", "iterate_tables", "get_metadata", "to_json"}
 
@@ -90,6 +90,27 @@ def _observe(r, name):
         return r.to_json()
     if name == "unit_to_json":
         return [u.to_json() for u in r.iterate_units()]
+    if name == "partial_iterations":
+        # a consumer that does not run an iterator to its end: peek at the first element (next), leave a loop early (break), walk two
+        # iterators of the same result in step; every iterate_* accessor of the result type
+        import itertools
+        out = {}
+        for attr in sorted(a for a in dir(type(r)) if a.startswith("iterate_")):
+            f = getattr(r, attr, None)
+            if not callable(f):
+                continue
+            try:
+                first = next(iter(f()), None)
+                some = []
+                for j, x in enumerate(f()):
+                    some.append(type(x).__name__)
+                    if j >= 1:
+                        break
+                paired = [type(a_).__name__ for a_, _b in zip(f(), itertools.islice(f(), 1))]
+            except TypeError:
+                continue
+            out[attr] = [first.to_json() if hasattr(first, "to_json") else (type(first).__name__ if first is not None else None), some, paired]
+        return out
     if name == "other_accessors":
         # every further public read accessor the result type offers (iterate_* / get_* without required arguments), whatever it is called:
         # e.g. the attachments of a mail extracted at call time.  Generators are consumed; nested results are serialised.
